@@ -568,7 +568,7 @@ func c03ExhaustivePair(t *T) {
 // ---------------------------------------------------------------------------
 
 func runC03B(e *Env) {
-	e.Rule = "free-running stress under the race detector: generated router shapes, 16..64 goroutines issuing a mix of requests without synchronisation; every response compared with the solo outcome Prologues: recovered panics and internal re-dispatches (HandleContext). Background goroutines keep a Copy() of the context (data and error list) beyond their request; custom not-allowed handlers record and edit the allowed-methods list they are given; every other shape has a route behind pkg/handlers.Timeout whose handler overruns the deadline."
+	e.Rule = "free-running stress under the race detector: generated router shapes, 16..64 goroutines issuing a mix of requests without synchronisation; every response compared with the solo outcome Prologues: recovered panics and internal re-dispatches (HandleContext). Background goroutines keep a Copy() of the context (data and error list) beyond their request; custom not-allowed handlers record and edit the allowed-methods list they are given; every other shape has a route behind pkg/handlers.Timeout whose handler overruns the deadline. Every 16th request of a goroutine is preceded by the read-only route listings (Router.String, Routes, IterateRoutes), as an admin page would call them while requests are served."
 	shapes := e.N(40, 500)
 	G := int(e.N(16, 48))
 	M := int(e.N(250, 1200))
@@ -650,6 +650,12 @@ func runC03B(e *Env) {
 					q := pool[i]
 					rec := NewRec()
 					var bg sync.WaitGroup
+					if k%16 == 5 {
+						// an admin page lists the routes while requests are being served (read-only views)
+						_ = router.String()
+						_ = router.Routes()
+						router.IterateRoutes(func(*rux.Route) {})
+					}
 					if k%4 == 0 {
 						rec.Extra = map[string]any{"bg": &bg}
 					}
